@@ -594,8 +594,54 @@ fn big_layer(n: u32, by_key: bool) -> Tile {
 	Tile { layers: vec![mvt::Layer { name: mvt::LAYER_NAMES[0].to_string(), extent: Some(4096), version: Some(2), keys, values, features }] }
 }
 
+/// one layer whose value table holds `n` distinct numbers of one float kind, each used by one
+/// feature, one of them NaN: a valid tile on which an ordering of the values that is not total
+/// shows (the table is rebuilt sorted by use count and value)
+fn nan_layer(n: u32, nan_at: u32, double: bool) -> Tile {
+	let keys: Vec<String> = vec!["id".into(), "kind".into()];
+	let mut values: Vec<Value> = vec![];
+	let mut features = vec![];
+	for i in 0..n {
+		let x = (i * 7919 % n) as f64 + 0.5;
+		values.push(match (i == nan_at, double) {
+			(true, true) => Value::Double(f64::NAN.to_bits()),
+			(true, false) => Value::Float(f32::NAN.to_bits()),
+			(false, true) => Value::Double(x.to_bits()),
+			(false, false) => Value::Float((x as f32).to_bits()),
+		});
+		values.push(Value::Uint(i as u64));
+		features.push(mvt::Feature { id: Some(i as u64), tags: vec![0, values.len() as u32 - 1, 1, values.len() as u32 - 2], geom_type: 1, geometry: vec![9, 2 * i, 2] });
+	}
+	Tile { layers: vec![mvt::Layer { name: mvt::LAYER_NAMES[0].to_string(), extent: Some(4096), version: Some(2), keys, values, features }] }
+}
+
+fn nan_layers() -> Vec<Tile> {
+	let mut v = vec![];
+	for n in [21u32, 22, 33, 64, 200] {
+		for nan_at in [0, 1, n - 1] {
+			v.push(nan_layer(n, nan_at, (n + nan_at) % 2 == 0));
+		}
+	}
+	v
+}
+
 fn big_update_cases() -> Vec<UpCase> {
 	let mut v = vec![];
+	for (i, t) in nan_layers().into_iter().enumerate() {
+		v.push(UpCase {
+			z: 3,
+			comp: Comp::ALL[i % 3],
+			default_stream: i % 2 == 0,
+			tiles: vec![(0, 0, t, i as u32)],
+			csv: Csv { header: vec!["id".into(), "colour".into()], rows: vec![vec!["3".into(), "green".into()], vec!["20".into(), "red".into()], vec!["a".into(), "x".into()]], crlf: false, final_newline: true, quote_all: false },
+			id_col: 0,
+			layer_name: mvt::LAYER_NAMES[0].to_string(),
+			id_field_tiles: "id".into(),
+			replace: None,
+			remove: if i % 4 == 0 { Some(true) } else { None },
+			include_id: None,
+		});
+	}
 	for (by_key, n, remove) in [(false, 70_000u32, None), (true, 66_000, Some(false))] {
 		v.push(UpCase {
 			z: 3,
@@ -631,7 +677,9 @@ fn main() {
 	// tables with more than 65536 entries (one layer of 66 000 / 70 000 features)
 	let w = check.workers;
 	check.workers = 2;
-	check.enumerate("roundtrip-big-tables", vec![RtCase { tile: big_layer(70_000, false), layout: 0 }, RtCase { tile: big_layer(66_000, true), layout: 7 }], false, rt_oracle);
+	let mut rt_fixed = vec![RtCase { tile: big_layer(70_000, false), layout: 0 }, RtCase { tile: big_layer(66_000, true), layout: 7 }];
+	rt_fixed.extend(nan_layers().into_iter().enumerate().map(|(i, tile)| RtCase { tile, layout: i as u32 }));
+	check.enumerate("roundtrip-big-tables", rt_fixed, false, rt_oracle);
 	check.enumerate("update-big-tables", big_update_cases(), false, up_oracle);
 	check.workers = w;
 
